@@ -2,6 +2,7 @@ import Sourmash.Spec.SigFormat
 import Sourmash.Lemmas.Json
 import Sourmash.Lemmas.JsonSort
 import Sourmash.Lemmas.JsonFilter
+import Sourmash.Lemmas.JsonDescribe
 /-! Property C06 — signatures survive save/load unchanged and stay format-compatible.
 Property theorems only; helper lemmas live in `Sourmash/Lemmas/Json*.lean`. -/
 namespace Sourmash.C06
@@ -58,6 +59,16 @@ theorem model_reads_published :
     [K.class_, K.email, K.hash_function, K.filename, K.name, K.license, K.signatures, K.version] = signatureFieldNames ∧
     [K.registers, K.p, K.q, K.ksize] = hllFieldNames ∧
     [Mol.dna, .protein, .dayhoff, .hp].map Mol.display = [Mol.dna, .protein, .dayhoff, .hp].map moleculeName := by decide
+
+/-- "… so an independent JSON reader sees exactly the sketch's state": for every list of signatures (no
+    hypothesis at all), the document `toJson` writes is an array with one object per signature that carries
+    only published keys, and what a reader that knows nothing but the published names finds under them is
+    exactly the state: class, email, hash_function, filename (`null` when absent), name (no key when absent),
+    license, version, and per sketch num, ksize, seed, max_hash, the hashes, md5sum, the abundances (no key when
+    untracked) and the published molecule string -/
+theorem written_is_described (sigs : List Signature) : describes (toJson sigs) sigs = true := by
+  have h := all_zip_map_self toJsonSig describesSig describesSig_written sigs
+  simpa [describes, toJson] using h
 
 /-! ### T-roundtrip — "writing any signature to JSON and loading it back yields a signature with identical
 name, filename, license and, for every sketch, identical parameters, hashes, abundances and md5" -/
